@@ -217,6 +217,11 @@ def r_filter(f):
 def r_result(r):
     code = r.result_code
     v = code.value if hasattr(code, "value") else int(code)
+    if int(code) != int(v):
+        # LDAPResultCode is an IntEnum: the field IS an integer; a member whose integer differs from its .value
+        # compares equal to a different result code
+        v = ["result code reads", int(code), "as an integer but its .value is", int(v)]
+        return [v, B(r.matched_dn), B(r.diagnostics_message), opt(None if r.referrals is None else [B(x) for x in r.referrals])]
     return [int(v), B(r.matched_dn), B(r.diagnostics_message), opt(None if r.referrals is None else [B(x) for x in r.referrals])]
 
 
